@@ -2,6 +2,7 @@ import RpgpModel.Proto
 import RpgpModel.Stream
 import RpgpModel.StreamFail
 import RpgpModel.PacketIter
+import RpgpModel.StreamIntr
 import RpgpModel.Utf8
 import RpgpModel.Canon
 import RpgpModel.Gen.Constants
@@ -37,6 +38,22 @@ def handle (op : String) (a : Args) : Option String :=
     let rs := encPoll b (b + 2) (fun x => x ++ List.replicate grow 0) (List.replicate tr 0)
       ⟨List.replicate q 0, false, false⟩ src reqs
     pure ("ok:" ++ ",".intercalate (rs.map fun r => match r with | .fail => "E" | .bytes bs => toString bs.length))
+  | "fill_buffer_intr" => do
+    -- evs: 999999999 = a read that fails for good, 888888888 = an interrupted read, any other number =
+    -- a data event of that many octets (octet values: a running counter)
+    let n ← a.nat "n"
+    let evs ← a.natList "evs"
+    let rec build (es : List Nat) (next : Nat) : List EvI :=
+      match es with
+      | [] => []
+      | e :: r =>
+        if e = 999999999 then .err :: build r next
+        else if e = 888888888 then .intr :: build r next
+        else .data ((List.range e).map fun i => ((next + i) % 251).toUInt8) :: build r (next + e)
+    let src := build evs 0
+    match fillBufferIntr (src.length + n + 1) src n with
+    | none => pure "err"
+    | some (got, _) => pure s!"ok:{hexOrDash got}"
   | "next_hdr" => do
     -- the reader below delivers `pre`, then ends (`tail=0`) or fails (`tail=1`: kind UnexpectedEof,
     -- `tail=2`: another kind); `it=1`: the Iterator, `it=0`: next_ref
